@@ -65,6 +65,7 @@ RULE = ("particle lists of N in 1..100 particles (subtomo_ids unique in random r
         "(reversed, shuffled, offset, with gaps, duplicated, all equal, negative — `Motl(df)` keeps them), offsets as int list / int tuple / int64 array, decimal values with 1-3 "
         "decimals (angles, coordinates, shifts, offsets), parents with theta next to 0/180 on both sides of scipy's gimbal threshold (|theta| <= 1e-7 rad); a small share of numeric "
         "arguments OUTSIDE the statement (n + fraction, 0, negative, NaN, inf) judged against the Lean model of int() only (kind corr); "
+        "30% of the cases store the 20 columns in another order (z,y,x inside the triples / reversed / coordinate-shift interleaved / random permutation; cells observed by NAME); "
         "30% of the cases call the inherited method on an instance of a subclass (EmMotl / RelionMotl / StopgapMotl / DynamoMotl / ModMotl built from the same frame); "
         "offsets also as float32 arrays (float32-representable values; position tolerance + 5 eps32 rho because numpy takes sqrt/arctan2 in float32); "
         "non-trivial = N>=2 and n>=2 and s off the axis and at least one parent with theta not a multiple of 180; distinct = distinct (calls, rows) content")
@@ -944,10 +945,29 @@ def _rows(rng, N, intcols=None):
     return [[f2b(v) for v in r] for r in rows], idkind
 
 
+def _colorder(rng):
+    """H3 — the 20 columns stored in another order (`Motl` accepts any order: check_df_correct_format compares the SORTED names): numpy / MRC
+    axis order z,y,x inside every triple, reversed, coordinate and shift interleaved, a random permutation"""
+    kind = rng.choice(["zyx", "zyx", "reversed", "interleaved", "random", "random"])
+    cols = list(FIELDS)
+    if kind == "zyx":
+        for tri in (["x", "y", "z"], ["shift_x", "shift_y", "shift_z"]):
+            idx = sorted(cols.index(c) for c in tri)
+            for i, c in zip(idx, reversed(tri)): cols[i] = c
+    elif kind == "reversed": cols.reverse()
+    elif kind == "interleaved":
+        rest = [c for c in cols if c not in ("x", "y", "z", "shift_x", "shift_y", "shift_z")]
+        cols = rest[:7] + ["x", "shift_x", "y", "shift_y", "z", "shift_z"] + rest[7:]
+    else: rng.shuffle(cols)
+    return kind, cols
+
+
 def _dress(rng, case, tier):
     """H3: a share of the cases carries non-default row labels"""
     if rng.random() < 0.30:
         case["labelkind"], case["labels"] = _labels(rng, len(case["rows"]))
+    if rng.random() < 0.30:     # the frame stores its columns in another order; every access of the function must be by NAME
+        case["colkind"], case["colorder"] = _colorder(rng)
     if rng.random() < 0.30:     # the method is inherited: call it on an instance of a subclass (an override there must show)
         case["receiver"] = rng.choice(RECEIVERS[1:])
     return case
@@ -1058,7 +1078,7 @@ def _calls(case):
 
 def key(case):
     import hashlib, json
-    return hashlib.sha1(json.dumps([[(c["sym"], c["s"], c.get("sform")) for c in _calls(case)], case["rows"], case.get("intcols"), case.get("labels"), case.get("receiver")],
+    return hashlib.sha1(json.dumps([[(c["sym"], c["s"], c.get("sform")) for c in _calls(case)], case["rows"], case.get("intcols"), case.get("labels"), case.get("receiver"), case.get("colorder")],
                                    sort_keys=True).encode()).hexdigest()
 
 
@@ -1073,9 +1093,11 @@ def _shrink(case):
     rows = case["rows"]
     calls = _calls(case)
     base = dict(rows=rows, idkind=case.get("idkind", "?"), calls=calls)
-    for k in ("intcols", "intkind", "labels", "labelkind", "receiver"):
+    for k in ("intcols", "intkind", "labels", "labelkind", "receiver", "colorder", "colkind"):
         if case.get(k) is not None:
             base[k] = case[k]
+    if base.get("colorder"):
+        yield {k: v for k, v in base.items() if k not in ("colorder", "colkind")}
     if base.get("receiver", "Motl") != "Motl":
         yield {k: v for k, v in base.items() if k != "receiver"}
     labels = base.get("labels")
@@ -1216,6 +1238,10 @@ def run_impl(case):
             df[c] = df[c].astype("int64")
         if case.get("labels") is not None:            # `Motl(df)` keeps the caller's row labels
             df.index = list(case["labels"])
+        if case.get("colorder"):                      # the same 20 columns, stored in another order
+            if sorted(case["colorder"]) != sorted(FIELDS):
+                raise ValueError("colorder must be a permutation of the 20 fields")
+            df = df[list(case["colorder"])]
         cls = case.get("receiver", "Motl")
         if cls not in RECEIVERS:
             raise ValueError(f"unknown receiver class {cls!r}")
@@ -1465,8 +1491,8 @@ def _judge_call(case, ci, c, o, m):
         return [dict(kind="corr", clause="model-error", detail=f"{tag}{m}")]
     if m.get("kind") != "cyclic" or m.get("n") != n or m.get("subs") is None:
         return [dict(kind="corr", clause="symmetry-vs-model", detail=f"{tag}{sym_txt}: the Lean parser says {m.get('kind')} n={m.get('n')}, the harness meant cyclic n={n}")]
-    if o["cols"] != FIELDS:
-        return [dict(kind="corr", clause="columns", detail=f"{tag}column order {o['cols']}")]
+    if o["cols"] != list(case.get("colorder") or FIELDS):       # the documented behaviour keeps the caller's column order (cells are read by NAME)
+        return [dict(kind="corr", clause="columns", detail=f"{tag}column order {o['cols']}, the list was given as {list(case.get('colorder') or FIELDS)}")]
     if any(k != "f" for k in o.get("kinds", "f" * 20)):
         return [dict(kind="corr", clause="dtype-vs-model", detail=f"{tag}dtypes {o['dtypes']} (the documented table is all float64)")]
     subs = [_f(u) for u in m["subs"]]
@@ -1534,7 +1560,7 @@ def stats(case, obs, resps):
          "same_n_repeated_in_session": "yes" if len({c["sym"]["n"] for c in calls}) < len(calls) else "no",
          "parent_ids": "repeated" if len(set(ids)) < len(ids) else "unique", "idkind": case.get("idkind", "corpus"),
          "integer_typed_columns": case.get("intkind", "none" if not case.get("intcols") else "corpus"),
-         "receiver_class": case.get("receiver", "Motl"),
+         "receiver_class": case.get("receiver", "Motl"), "column_order": case.get("colkind", "canonical" if not case.get("colorder") else "corpus"),
          "row_labels": case.get("labelkind", "default RangeIndex" if case.get("labels") is None else "corpus"),
          "impl": ["raised" if "error" in o else "returned" for o in oc],
          "returned_dtypes": sorted({o.get("kinds", "?") for o in oc if "error" not in o})}
